@@ -111,6 +111,12 @@ type Interp struct {
 	modelNeeds *Term
 	varRange   map[*Term][2]int64
 	ivMemo     map[*Term][3]int64
+	realRange  map[*Term]ratIv
+	poison     map[*Term]bool
+	poisonMemo map[*Term]bool
+	poisonSeq  int
+	linMemo    map[*Term]*linForm
+	atomMemo   map[*Term]*ratIv
 
 	// global
 	work   [][]int
@@ -353,6 +359,7 @@ func (it *Interp) addPC(c *Term) {
 	}
 	it.pc = append(it.pc, c)
 	it.notePCVars(c)
+	it.noteRealBound(c)
 	if it.model != nil {
 		if v := it.tb.Eval(c, it.model, it.modelMemo); v == nil || !v.IsConst() || !v.B {
 			if !it.repairModel(c) {
@@ -499,6 +506,7 @@ func (it *Interp) lookupKnown(c *Term) (bool, bool) {
 // (its first solver interaction, or the final feasibility check), so a fork costs no query when the cached model
 // already witnesses one side.
 func (it *Interp) decide(c *Term) bool {
+	it.poisonGuard(c, "a branch condition")
 	if v, ok := it.lookupKnown(c); ok {
 		return v
 	}
@@ -826,6 +834,12 @@ func (it *Interp) intervalDecide(c *Term) (bool, bool) {
 			return res(true)
 		}
 	case "bvslt", "<", "bvsle", "<=":
+		if c.Args[0].S.K == SReal {
+			if v, ok := it.realDecide(c.Op, c.Args[0], c.Args[1]); ok {
+				return res(v)
+			}
+			return false, false
+		}
 		if c.Args[0].S.K != SBV && c.Args[0].S.K != SInt {
 			return false, false
 		}
@@ -851,6 +865,12 @@ func (it *Interp) intervalDecide(c *Term) (bool, bool) {
 			}
 		}
 	case "=":
+		if c.Args[0].S.K == SReal {
+			if v, ok := it.realDecide("=", c.Args[0], c.Args[1]); ok {
+				return res(v)
+			}
+			return false, false
+		}
 		if c.Args[0].S.K != SBV && c.Args[0].S.K != SInt {
 			return false, false
 		}
